@@ -237,6 +237,53 @@ class IdentSim(object):
         else:
             self.m_issue(u, t, i, rec)
 
+    def op_two_idps(self, ev, i, rec):
+        """Two identity providers live in one process, each set up by the real Server.init_config() with the default
+        (in-memory) subject database: what one of them issues means nothing to the other."""
+        from saml2_tophat.server import Server
+
+        class _Conf(object):
+            def __init__(self, eid):
+                self.entityid = eid
+
+            def getattr(self, name, ctx=None):
+                return {"domain": "users.example.org"}.get(name)
+
+        class _Idp(object):
+            pass
+        idps = []
+        for eid in ("https://idp-a.example.org/idp", "https://idp-b.example.org/idp"):
+            o = _Idp()
+            o.config = _Conf(eid)
+            try:
+                Server.init_config(o, "idp")
+            except Exception as e:
+                rec["exc"] = type(e).__name__
+                return
+            idps.append(o)
+        a, b = idps
+        self.count("oracle.two-idps-judged")
+        u, spq = ev["u"], ev["spq"]
+        na = a.ident.persistent_nameid(u, spq, "")
+        ta = a.ident.transient_nameid(u, spq, "")
+        for nid_ in (na, ta):
+            got = b.ident.find_local_id(nid_)
+            if got is not None:
+                self.viol(i, "identifier-of-another-idp-resolves", "issued by %s for %s, resolves at %s to %r" % (
+                    a.config.entityid, u, b.config.entityid, got))
+                raise Violation()
+        if b.ident.find_nameid(u):
+            self.viol(i, "identifier-of-another-idp-listed", "user %s holds nothing at %s, listed: %d" % (
+                u, b.config.entityid, len(b.ident.find_nameid(u))))
+            raise Violation()
+        nb_ = b.ident.persistent_nameid(u, spq, "")
+        # (two separate databases cannot protect each other against a repeating entropy source: only judged when the
+        # `entropy-repeat` fault is not in play)
+        ids_ = self.world.ids
+        if nb_.text == na.text and not ids_.repeats_fired and ids_.repeat_next is None:
+            self.viol(i, "two-idps-share-persistent-identifier", "user %s sp %s text %s" % (u, spq, na.text))
+            raise Violation()
+
     def op_fork(self, ev, i, rec):
         """A pre-forking server: the master process (library loaded, nothing issued from this database yet) forks a
         worker; master and worker each serve their own users from their own in-memory database.  The operating
@@ -693,6 +740,44 @@ class CacheSim(object):
             self.model.setdefault(t, {})[src] = (expv, {"ava": copy.deepcopy(ev["ava"]), "marker": ev["marker"]})
             self.count("probe.set.off%+d" % ev["off"] if abs(ev["off"]) <= 1 else "probe.set.far")
 
+    def op_offset_probe(self, ev, i, rec):
+        """A session whose expiry the caller stores as the assertion spelt it - with a numeric zone designator - for a
+        subject nobody else uses, queried at once: the instant is what counts, not the wall-clock digits.  (This code
+        base refuses such a spelling at query time, which is as safe; what it must never do is hand the data out
+        after the instant has passed.)  The subject is removed again afterwards."""
+        import time as _t
+        t = ("https://idp.example.org/idp", "https://sp.example.org/sp", NAMEID_FORMAT_PERSISTENT, "", "offset-probe-%d" % i)
+        src = ev["src"]
+        true_exp = self.now() + ev["off"]
+        hh = ev["zone_h"]
+        wall = _t.strftime("%Y-%m-%dT%H:%M:%S", _t.gmtime(true_exp + hh * 3600))
+        expv = "%s%s%02d:00" % (wall, "+" if hh >= 0 else "-", abs(hh))
+        info = {"ava": {"mail": ["probe"]}, "marker": "probe"}
+
+        def run(c, p):
+            c.set(mk_nid(t), src, dict(info), expv)
+            try:
+                got = c.get(mk_nid(t), src, True)
+                res = ("ok", bool(got and got.get("marker") == "probe"))
+            except Exception as e:
+                res = ("exc", type(e).__name__)
+            try:
+                act = ("ok", bool(c.active(mk_nid(t), src)))
+            except Exception as e:
+                act = ("exc", type(e).__name__)
+            c.delete(mk_nid(t))
+            return [list(res), list(act)]
+        out = self.same_backends(i, self.both(run), "offset_probe")
+        self.count("probe.offset-expiry")
+        if out[0] != "ok":
+            return
+        res, act = out[1]
+        expired = self.now() > true_exp
+        if expired and ((res[0] == "ok" and res[1]) or (act[0] == "ok" and act[1])):
+            self.viol(i, "expired-data-returned", "expiry %s (the instant passed %d s ago): get=%r active=%r" % (
+                expv, self.now() - true_exp, res, act))
+            raise Violation()
+
     def op_add_person(self, ev, i, rec):
         """Population.add_information_about_person: what the client does on every accepted login."""
         t = self.subj(ev)
@@ -965,6 +1050,9 @@ def gen_c18(seed, tier):
                 ts.append(["".join(r.pick(HOSTILE_FIELD + ["a", "b", ""]) for _ in range(r.randrange(0, 3)))
                            for _ in range(5)])
             evs.append({"k": k, "ts": ts})
+    if mkrng(seed, "layout2").chance(0.1):
+        # deployment knob: two IdP objects in one process
+        evs.insert(r.randrange(len(evs) + 1), {"k": "two_idps", "u": r.pick(users), "spq": r.pick([x for x in spqs if x])})
     if backend == "dict" and mkrng(seed, "layout").chance(0.12):
         # deployment knob: a pre-forking server - at some point a worker process is forked off
         evs.insert(r.randrange(len(evs) + 1), {"k": "fork", "master_users": ["dave"], "worker_users": ["erin", "frank"],
@@ -1016,11 +1104,12 @@ def gen_c19(seed, tier):
     focus_subj = r.pick([1.0, 0.85, 0.6, 0.34])
     use_sources = sources[: r.pick([1, 2, 2, 3])]
     use_attrs = attrs[: r.pick([1, 1, 2, 3])]
-    optional = ["add_person", "reset", "delete", "active", "entities", "stale", "subjects", "entityid", "jump", "reopen"]
+    optional = ["add_person", "reset", "delete", "active", "entities", "stale", "subjects", "entityid", "jump", "reopen",
+                "offset_probe"]
     enabled = set(r.subset(optional, r.pick([0.3, 0.5, 0.8]))) | {"set", "get", "identity"}
     weights = [("set", 6), ("add_person", 2), ("get", 4), ("identity", 5), ("reset", 2), ("delete", 2),
                ("active", 2), ("entities", 2), ("stale", 2), ("subjects", 1), ("entityid", 1),
-               ("jump", 3), ("reopen", 2)]
+               ("jump", 3), ("reopen", 2), ("offset_probe", 1)]
     weights = [(k, w) for k, w in weights if k in enabled]
     evs = []
     mk = 0
@@ -1059,6 +1148,8 @@ def gen_c19(seed, tier):
             e.update({"s": s, "via_pop": r.chance(0.3)})
         elif k == "entities":
             e.update({"s": s, "via": r.pick(["entities", "issuers", "sources", "receivers"])})
+        elif k == "offset_probe":
+            e.update({"src": src, "off": r.pick([-7200, -3600, -60, -1, 1, 60, 3600]), "zone_h": r.pick([2, 5, 1, 14, -5, -12])})
         elif k == "stale":
             # (no argument, an explicit empty list - "everything" as well -, or the sources the caller cares about)
             e.update({"s": s, "sources": r.pick([None, None, [], [], r.sample(sources, 1), r.sample(sources, 2)])})
